@@ -151,6 +151,14 @@ def f1(arg, {inner}): return arg
 def f2(arg, *args, **kwargs): return f1(arg, *args, **kwargs)
 w1 = wrappers.Combination(f1, f2)
 ''', ['w1']),
+    _mk('sigattr_upgraded', '''
+def inner({inner}): return 'inner'
+def other(p, q=2): return 'other'
+def w1({outer}*args, **kwargs): return inner(1, *args, **kwargs)
+w1.__signature__ = signatures.signature(other).replace(sources={{}})
+@functools.wraps(w1)
+def w2(*args, **kwargs): return w1(*args, **kwargs)
+''', ['w1', 'w2']),
     _mk('as_forged_class', '''
 class K(object):
     __signature__ = specifiers.as_forged
